@@ -144,8 +144,14 @@ func runOverlap(root, id string, c Case) (resA, resB result, bRan bool) {
 			runB()
 		}
 	}()
+	t0 := time.Now()
 	select {
 	case o := <-done:
+		if time.Since(t0) > 3*time.Second {
+			// two plugins that answer at once took seconds: starved machine, nothing is judged (see driver.run)
+			resA.Setup = "recorded:overlap/environment-failure - not judged"
+			return
+		}
 		if o.a.pan != nil {
 			panic(o.a.pan)
 		}
@@ -273,8 +279,9 @@ func (d *driver) runConcurrent(g, rounds, procs int) concStats {
 				ctx := log.WithLogger(context.Background(), &fnLogger{f: func() { time.Sleep(delay) }})
 				<-start
 				var o callOut
+				tc := time.Now()
 				o.resp, o.err = invoke(ctx, cs[i].p, cs[i].c.Cmd, false)
-				if environmentFailure(o.err, true) {
+				if environmentFailure(o.err, true) || time.Since(tc) > 3*time.Second {
 					d.r.Outcome("recorded:concurrent/environment-failure - not judged")
 					return
 				}
